@@ -276,9 +276,17 @@ func (c *c06) checkJWTAccess(desc, site string, ic issueCtx, tok string, stored 
 	if ic.client != "" && p["client_id"] != ic.client {
 		c.viol("claims", site+"/access-client", "%s: JWT access token client_id %v, client %q", desc, p["client_id"], ic.client)
 	}
+	// the audience contains the client wherever the request names the client as its audience or names none at all
+	// (token exchange decides its own audience; a jwt-bearer grant's request is the assertion, whose audience is the issuer)
+	if ic.client != "" && !strings.HasPrefix(ic.flow, "exchange") && ic.flow != "jwt-bearer" && !slices.Contains(audList(p["aud"]), ic.client) {
+		c.viol("claims", site+"/access-aud", "%s: JWT access token aud %v lacks the client %q", desc, p["aud"], ic.client)
+	}
+	if len(stored.Audience) == 0 {
+		c.o.Probe("jwt-access-tokens-for-requests-with-an-empty-audience-list")
+	}
 	exp, _ := numClaim(p, "exp")
 	iat, _ := numClaim(p, "iat")
-	if exp != stored.Exp.Unix() && exp != stored.Exp.Add(skew).Unix() {
+	if exp != stored.Exp.Unix() {
 		c.viol("times", site+"/access-exp", "%s: JWT access token exp %d, stored %d", desc, exp, stored.Exp.Unix())
 	}
 	if end := time.Now(); iat < ic.now.Add(-skew).Unix() || iat > end.Add(-skew).Unix() {
